@@ -123,6 +123,11 @@ def variants(tier='quick'):
             for flags in (None, [1, 1, 0, 1, 1, 1]):
                 for swap in (False, True):
                     out.append((cells32, 'lat-fast', nmag, mg, flags, swap, 'min', f'3x2-M{nmag}{mg}-{"flag" if flags else "noflag"}-{"swap" if swap else "noswap"}'))
+    # further flag patterns: first / last cell, two cells, ALL cells flagged out, on 3x2, 2x1 and single-cell files
+    for cells, flags in ((cells32, [0, 1, 1, 1, 1, 1]), (cells32, [1, 1, 1, 1, 1, 0]), (cells32, [0, 1, 1, 0, 1, 1]), (cells32, [0] * 6),
+                         ([(0, 0), (1, 0)], [0, 0]), ([(0, 0), (1, 0)], [1, 0]), ([(0, 0)], [0])):
+        for nmag in (1, 2):
+            out.append((cells, 'lat-fast', nmag, 'a', flags, False, 'min', f'{len(cells)}cells-M{nmag}-flags{"".join(map(str, flags))}'))
     for style in ('f3', 'repr'):
         out.append((cells32, 'lat-fast', 2, 'a', None, False, style, f'3x2-format-{style}'))
         out.append(([(0, 0)], 'lat-fast', 1, 'a', None, False, style, f'1x1-format-{style}'))
@@ -157,6 +162,12 @@ def judge_file(path, rows, swap, failures, hsh, desc, flags_present, fc=None):
             fail('csep.load_gridded_forecast', type(e).__name__, f'{type(e).__name__}: {e}')
             return 1
     evals = 1
+    # the caller owns what forecast.data returns: overwriting that array must not change what the forecast answers
+    try:
+        d_ = fc.data
+        d_[...] = -7.0
+    except (ValueError, TypeError):
+        pass
     P = [dict(lon0=float(r['lon0']), lon1=float(r['lon1']), lat0=float(r['lat0']), lat1=float(r['lat1']), m0=float(r['m0']),
               m1=float(r['m1']), rate=float(r['rate']), flag=int(r['flag']), cell=r['cell']) for r in rows]
     mags = []
@@ -394,6 +405,11 @@ def run_scale(case, failures, hsh):
             fc = GriddedForecast.from_custom(lambda: (orig.copy(), reg, numpy.array([4.95, 5.05])), start_time=T0, end_time=T1)
         # every history starts with an inspection of the forecast (total and both marginals are READ before the first operation)
         _ = float(fc.sum()), float(fc.event_count), numpy.sum(fc.spatial_counts()), numpy.sum(fc.magnitude_counts())
+        try:
+            d_ = fc.data           # ... and the array handed out by .data is overwritten by the caller
+            d_[...] = -7.0
+        except (ValueError, TypeError):
+            pass
         return fc
 
     def apply_op(fc, op):
@@ -405,6 +421,11 @@ def run_scale(case, failures, hsh):
                  'date(after)': datetime.datetime(2012, 1, 1)}[op]
             fc.scale_to_test_date(d)
         totals.append((float(fc.sum()), float(fc.event_count), float(numpy.sum(fc.data))))     # the total is READ after every operation
+        try:
+            d_ = fc.data
+            d_[...] = -7.0         # the caller overwrites the array it was handed
+        except (ValueError, TypeError):
+            pass
         _ = fc.spatial_counts(), fc.magnitude_counts()                                          # ... and so are the marginals
         return numpy.array(fc.data, dtype=float)
 
